@@ -18,6 +18,7 @@ macro_rules! dispatch {
       "C01" => $f::<props::c01::C01>($($arg),*),
       "C03" => $f::<props::c03::C03>($($arg),*),
       "C11" => $f::<props::c11::C11>($($arg),*),
+      "C12" => $f::<props::c12::C12>($($arg),*),
       "C15" => $f::<props::c15::C15>($($arg),*),
       other => { eprintln!("unknown property {}", other); std::process::exit(3) }
     }
